@@ -170,11 +170,12 @@ def task_closure(ctx, pid, host_suffix, traversal):
                     empty_cache = rr[0] == 'agg' and rr[1].endswith('Option::None') and not rr[2]
                     last_ty = '%s (a capture-less closure returning %s)' % (last_ty, facts.show(rr))
         node = norm(e[2][0])
+        nodes_ = [norm(a_) for a_ in e[2]]      # the traversal may be a method: the node is then not the first argument
         r = strip_refs(q.ret_expr(cf))
         key_ok = False
         if r[0] == 'agg' and r[1] == 'tuple' and len(r[2]) == 2:
             k = strip_refs(r[2][0])
-            if k[0] == 'agg' and 'ByAddress' in k[1] and norm(k[2][0]) == node:
+            if k[0] == 'agg' and 'ByAddress' in k[1] and (norm(k[2][0]) == node or (norm(k[2][0]) in nodes_ and 'Node' in str(cf.locals[0]['ty']) + facts.show(k[2][0]) or norm(k[2][0]) in nodes_[1:2])):
                 key_ok = True
             pay_ok = r[2][1][0] == 'call' and r[2][1][3] == e[3]
         else:
